@@ -76,6 +76,7 @@ def mk_state(ctx, T):
     for a in ('toa256_rand_threshold', 'rssi_rand_threshold', 'ci_rand_threshold', 'burst_drop_amount'): setattr(t, a, ctx.int('pre.' + a, 0, R))
     t.burst_drop_period = ctx.int('pre.burst_drop_period', 1, R)
     t.fake_rssi_enabled = ctx.bool('pre.fake_rssi'); t.rf_muted = ctx.bool('pre.muted')
+    if bool(ctx.bool('pre.queued')): t._tx_queue.append(object())        # a burst waiting for its frame: only POWEROFF may discard it
     t.ctrl_if.rsp_delay_ms = ctx.int('pre.rsp_delay_ms', -R, R)           # whatever an earlier FAKE_TRXC_DELAY left behind
     return t, other, pm, net, rnd
 
